@@ -66,8 +66,7 @@ package sql
 //@   ensures[C07] token-is-last-key: err == nil && nextPageToken != "" ==> nextPageToken == uuidstr(res[len(res)-1].ID) && len(res) == pagination.PerPage
 //@   ensures[C07] keyset-shape: err == nil ==> qlimit(sqlQuery) == pagination.PerPage + 1 && qordered(sqlQuery) && qafterset(sqlQuery) && qafter(sqlQuery) == pagination.LastID
 //@   ensures[C06] nid: err == nil ==> qnidset(sqlQuery) && qnid(sqlQuery) == netid(p, now(ctx))
-//@   ensures err == nil ==> forall i in 0..len(result0) :: result0[i] != nil
-//@   loop 1 invariant len(internalRes) == $n && (isnil(internalRes) || fresh(internalRes)) && (forall j in 0..len(internalRes) :: internalRes[j] != nil)
+//@   loop 1 invariant len(internalRes) == $n && (isnil(internalRes) || fresh(internalRes))
 
 //@ func (*Persister).ExistsRelationTuples
 //@   props C06
